@@ -271,13 +271,76 @@ def w_histories(ctx: core.Ctx, arg):
         world.stop()
 
 
+def w_realsocket(ctx: core.Ctx, arg):
+    """the same histories with NOTHING replaced below the MDIB: real HTTP servers and clients on 127.0.0.1, the default (async) or the sync
+    provider components, compression, optional chunking, the consumer's default deferred dispatcher (own worker thread).  Quiescence by a
+    barrier on the dispatcher queue (RealWorld.barrier), never by sleeping; a barrier that does not return is inconclusive."""
+    from ..realworld import RealWorld
+    rng = ctx.rng('real', arg['i'])
+    for hno in range(arg['n']):
+        k = arg['i'] * arg['n'] + hno
+        mdib_file = MDIB_FILES[k % len(MDIB_FILES)]
+        async_mgr = (k // 4) % 2 == 0
+        chunk = [0, 0, 512, 37][(k // 2) % 4]
+        ctx_in_getmdib = k % 5 != 3
+        label = {'mdib_file': mdib_file, 'async_mgr': async_mgr, 'chunk_size': chunk, 'contextstates_in_getmdib': ctx_in_getmdib,
+                 'transport': 'real sockets', 'history': [arg['i'], hno]}
+        try:
+            world = RealWorld(mdib_file, async_mgr=async_mgr, chunk_size=chunk, contextstates_in_getmdib=ctx_in_getmdib)
+        except Exception as ex:  # noqa: BLE001
+            ctx.not_decided(f'real-socket world could not be set up: {ex!r}')
+            return
+        try:
+            mdib = world.mdib
+            consumers = []
+            c, cm = world.add_consumer()
+            consumers.append(('first', c, cm))
+            late_at = rng.randrange(2, max(3, arg['len'] - 2))
+            memo = {}
+            weights = dict(mdibops.DEFAULT_WEIGHTS)
+            weights.update({'abort': 1, 'reject': 1})
+            ok = True
+            for step in range(arg['len']):
+                if step == late_at:
+                    c2, cm2 = world.add_consumer()
+                    consumers.append(('late', c2, cm2))
+                    ctx.count('real.consumer_attached_late')
+                    ok = compare(ctx, 'late-initial', snap(mdib), cm2, {**label, 'step': step, 'op': {'op': 'initial_load'}}) and ok
+                op = mdibops.gen_op(rng, mdib, memo, weights)
+                ap = mdibops.apply_op(mdib, op, memo)
+                ctx.count('real.transactions')
+                ctx.count(f'real.op.{op["op"]}')
+                ctx.case(('real', mdib_file, async_mgr, chunk) + mdibops.op_shape(ap), nontrivial=ap.outcome == 'ok')
+                psnap = snap(mdib)
+                detail = {**label, 'step': step, 'op': op, 'outcome': ap.outcome}
+                for cname, cons, cmdib in consumers:
+                    if not world.barrier(cons):
+                        ctx.not_decided('real sockets: the consumer dispatcher did not reach the barrier within the watchdog')
+                        return
+                    ctx.count('real.barriers')
+                    if not compare(ctx, 'real.' + cname, psnap, cmdib, detail):
+                        ok = False
+                if not ok:
+                    break
+            ctx.count('real.histories.async' if async_mgr else 'real.histories.sync')
+            if chunk:
+                ctx.count('real.histories.chunked')
+        finally:
+            world.stop()
+
+
 def run(ctx: core.Ctx):
     ctx.rule = ('seeded provider histories (vf.mdibops) over the 4 sample MDIBs x {sync, async subscription manager} x contextstates_in_getmdib '
                 'on/off, one consumer attached before the first transaction and one after a random prefix; distinct = sequence of '
                 '(op kind, sub kind, interface, abort point, #handles, outcome) + variant; non-trivial = at least one transaction committed')
     n_hist, length = (48, 40) if ctx.quick else (480, 120)
     jobs = [['w_histories', {'i': k, 'n': n_hist // 16, 'len': length}] for k in range(16)]
+    n_real, len_real = (1, 25) if ctx.quick else (6, 80)
+    jobs += [['w_realsocket', {'i': k, 'n': n_real, 'len': len_real}] for k in range(8)]
     core.fanout(ctx, MODULE, 'dispatch', jobs, timeout=3000)
+    ctx.floor('real.barriers', 100)
+    ctx.floor('real.histories.async', 2)
+    ctx.floor('real.histories.sync', 2)
     ctx.floor('mirror.comparisons', 1000)
     for kind in ('metric', 'alert', 'component', 'operational', 'context', 'rt', 'descr_update', 'descr_create', 'descr_delete', 'location'):
         ctx.floor(f'op.{kind}', 10)
